@@ -28,7 +28,7 @@ def lit_pool():
         L("a"), L("abc"), L("b"), L(""), L("abc", datatype=XSD.string), L("Abc d"),
         L("hello", lang="en"), L("bonjour", lang="fr"), L("hi", lang="en-US"), L("x", lang="en-us-posix"), L("hello", lang="EN"),
         L("abc", datatype=XSD.integer), L("2020-13-01", datatype=XSD.date), L("x", datatype=EX.dt),
-        L("maybe", datatype=XSD.boolean), L("1.2.3", datatype=XSD.decimal), L("fast", datatype=XSD.double), L("yesterday", datatype=XSD.dateTime),
+        L("1.2.3", datatype=XSD.decimal), L("fast", datatype=XSD.double), L("yesterday", datatype=XSD.dateTime),
         L("back\\slash"), L("br{a}ce $this ?x"), L("q\"uote'"), L("line\nbreak"), L("ré.*(sumé"), L("grp\\1"),
     ]
 
@@ -210,4 +210,77 @@ class ShapeGen:
         for _ in range(n_constraints if n_constraints is not None else rng.randint(1, 4)):
             self.core_constraint(s, is_prop, path_pred)
         self.shapes.append((s, is_prop))
+        return s
+
+
+class CompGen(ShapeGen):
+    """non-recursive compositions of the logical / shape-based components over Core leaf shapes"""
+
+    def leaf(self, is_prop=None, named=None):
+        named = self.rng.random() < 0.5 if named is None else named
+        return self.shape(is_prop=is_prop, named=named, n_constraints=self.rng.randint(1, 2), with_targets=False, complex_path=0.1)
+
+    def decorate(self, s):
+        rng, g = self.rng, self.g
+        if rng.random() < 0.35:
+            g.add((s, SH.severity, rng.choice([SH.Violation, SH.Warning, SH.Info, EX.CustomSeverity])))
+        if rng.random() < 0.25:
+            g.add((s, SH.message, rng.choice(POOL[16:22])))
+        if rng.random() < 0.08:
+            g.add((s, SH.deactivated, Literal(True)))
+
+    def composite(self, depth, want_prop=None, named=None):
+        """returns a shape node of nesting depth <= depth; want_prop forces node (False) / property (True) shape"""
+        rng, g = self.rng, self.g
+        if depth <= 0 or rng.random() < 0.15:
+            return self.leaf(is_prop=want_prop, named=named)
+        is_prop = rng.random() < 0.4 if want_prop is None else want_prop
+        named = rng.random() < 0.5 if named is None else named
+        s = self.new_node(named)
+        g.add((s, RDF.type, SH.PropertyShape if is_prop else SH.NodeShape))
+        if is_prop:
+            g.add((s, SH.path, rng.choice(PREDS)))
+        self.decorate(s)
+        ops = ["not", "and", "or", "xone", "node", "property"] + (["qualified", "qualified"] if is_prop else ["qsiblings"])
+        for _ in range(rng.choice((1, 1, 2))):
+            op = rng.choice(ops)
+            if op == "not":
+                g.add((s, SH["not"], self.composite(depth - 1)))
+            elif op in ("and", "or", "xone"):
+                members = [self.composite(depth - 1) for _ in range(rng.choice((1, 2, 2, 3)))]
+                if rng.random() < 0.1:
+                    members.append(members[0])      # the same member twice
+                g.add((s, SH[op], self.lst(members)))
+            elif op == "node":
+                g.add((s, SH.node, self.composite(depth - 1, want_prop=False)))
+            elif op == "property":
+                g.add((s, SH.property, self.composite(depth - 1, want_prop=True)))
+            elif op == "qualified":
+                if (s, SH.qualifiedValueShape, None) in g:
+                    continue
+                g.add((s, SH.qualifiedValueShape, self.composite(depth - 1)))
+                vals = [len(set(values_of(self.data, f, g.value(s, SH.path)))) for f in set(x for x, _p, _o in self.data)] or [1]
+                n = max(0, rng.choice(vals) + rng.choice((-1, 0, 1)))
+                if rng.random() < 0.7:
+                    g.add((s, SH.qualifiedMinCount, Literal(n)))
+                if rng.random() < 0.5 or (s, SH.qualifiedMinCount, None) not in g:
+                    g.add((s, SH.qualifiedMaxCount, Literal(max(0, n + rng.choice((-1, 0, 1))))))
+            elif op == "qsiblings":
+                # sibling property shapes with disjoint qualified value shapes (the hand / thumb / finger pattern)
+                p = rng.choice(PREDS)
+                shared = self.composite(depth - 1) if rng.random() < 0.3 else None
+                for k in range(rng.choice((2, 3))):
+                    ps = self.new_node(rng.random() < 0.5)
+                    g.add((s, SH.property, ps))
+                    g.add((ps, SH.path, p))
+                    g.add((ps, SH.qualifiedValueShape, shared if (shared is not None and k < 2) else self.composite(depth - 1)))
+                    g.add((ps, SH.qualifiedValueShapesDisjoint, Literal(rng.random() < 0.8)))
+                    g.add((ps, rng.choice([SH.qualifiedMinCount, SH.qualifiedMaxCount]), Literal(rng.randint(0, 2))))
+        self.shapes.append((s, is_prop))
+        return s
+
+    def top(self, depth):
+        s = self.composite(depth, named=True)
+        self.targets(s, force=self.rng.sample(["node", "class", "subjectsOf", "objectsOf"], self.rng.randint(1, 2)))
+        self.g.remove((s, SH.deactivated, None))
         return s
